@@ -17,21 +17,58 @@ from common import (unique, Outcome, Machinery, run_tlc, need_ok, run_cases,
 PROP = 'C16'
 
 
+# reference instants of the datetime families: (spelling in the units
+# attribute, civil fields <<Y, M, D, h, m, s, utc offset in minutes>>)
+REFS = [
+    ('2000-01-01 00:00:00', [2000, 1, 1, 0, 0, 0, 0]),
+    ('1999-12-31 18:00:00', [1999, 12, 31, 18, 0, 0, 0]),
+    ('2012-02-28 12:00:00 UTC', [2012, 2, 28, 12, 0, 0, 0]),
+    ('2100-02-27 21:30:00Z', [2100, 2, 27, 21, 30, 0, 0]),
+    ('1970-01-01', [1970, 1, 1, 0, 0, 0, 0]),
+    ('2003-12-31 23:00:00+0100', [2003, 12, 31, 23, 0, 0, 60]),
+    ('2004-02-29 06', [2004, 2, 29, 6, 0, 0, 0]),
+]
+UNITS = {'days': 86400, 'hours': 3600, 'minutes': 60, 'seconds': 1}
+
+
+def _probe_time(cf, p):
+    """datetime object for probe value p (in the coordinate's unit) and its
+    civil fields as passed to the library."""
+    from datetime import datetime, timedelta, timezone
+    r = cf['ref']
+    ref = datetime(r[0], r[1], r[2], r[3], r[4], r[5],
+                   tzinfo=timezone(timedelta(minutes=r[6])))
+    t = ref + timedelta(seconds=p * UNITS[cf['unit']])
+    tz = cf['tz']
+    if tz == 'naive':
+        t = t.astimezone(timezone.utc).replace(tzinfo=None)
+        off = 0
+    else:
+        t = t.astimezone(timezone(timedelta(minutes=tz)))
+        off = tz
+    return t, [t.year, t.month, t.day, t.hour, t.minute, t.second, off]
+
+
 def run_config(cf):
     import PseudoNetCDF as pnc
     c = cf['c']
     n = len(c)
+    kind = cf.get('kind', 'val')
+    x = 'time' if kind == 't2t' else 'x'
     f = pnc.PseudoNetCDFFile()
-    f.createDimension('x', n)
-    v = f.createVariable('x', 'd', ('x',))
+    f.createDimension(x, n)
+    v = f.createVariable(x, 'd', (x,))
     v[:] = c
+    if kind != 'val':
+        v.units = '%s since %s' % (cf['unit'], cf['refs'])
     if cf['rep'] == 'edges':
         f.createDimension('xe', n + 1)
-        b = f.createVariable('x_bounds', 'd', ('xe',))
+        b = f.createVariable(x + '_bounds', 'd', ('xe',))
         b[:] = cf['e']
     elif cf['rep'] == 'nx2':
         f.createDimension('nv', 2)
-        b = f.createVariable('x_bnds', 'd', ('x', 'nv'))
+        b = f.createVariable(x + ('_bounds' if kind == 't2t' else '_bnds'),
+                             'd', (x, 'nv'))
         b[:, 0] = cf['e'][:-1]
         b[:, 1] = cf['e'][1:]
     kw = dict(method=cf['method'], bounds=cf['bnd'], clean=cf['clean'])
@@ -43,14 +80,20 @@ def run_config(cf):
         import io
         import contextlib
         err = io.StringIO()
+        civ = None
         # the library's warn() writes through its own showwarning to stderr
         with warnings.catch_warnings(record=True) as wl, \
                 contextlib.redirect_stderr(err):
             warnings.simplefilter('always')
             try:
                 with np.errstate(all='ignore'):
-                    if cf.get('kind') == 'time':
-                        r = f.time2idx(cf['times'][p], dim='x', **kw)
+                    if kind == 'time':
+                        t, civ = _probe_time(cf, p)
+                        arg = [t] if cf['argform'] == 'list' else np.array([t])
+                        r = f.time2idx(arg, dim='x', **kw)
+                    elif kind == 't2t':
+                        t, civ = _probe_time(cf, p)
+                        r = f.time2t(np.array([t]), ttype=cf['ttype'])
                     else:
                         r = f.val2idx('x', np.array([float(p)]), **kw)
                 r = np.ma.asarray(r).ravel()
@@ -62,12 +105,53 @@ def run_config(cf):
                 ob = {'k': 'raised', 'i': 0, 'exc': type(ex).__name__}
             w = any('out of bounds' in str(x.message).lower() for x in wl) \
                 or 'out of bounds' in err.getvalue().lower()
-        obs.append({'v': int(p), 'ob': ob, 'w': bool(w)})
+        o = {'v': int(p), 'ob': ob, 'w': bool(w)}
+        if civ is not None:
+            o['civ'] = civ
+        obs.append(o)
     out = dict(cf)
+    out['kind'] = kind
     out['obs'] = obs
-    ca = np.asarray(f.variables['x'][...]).tolist()
+    ca = np.asarray(f.variables[x][...]).tolist()
     out['c_after'] = [int(x) if float(x).is_integer() else -999999
                       for x in ca]
+    return out
+
+
+def time_family(rnd, base, n_time, n_t2t):
+    """Datetime variants of lookup configurations: the same coordinate with CF
+    units, probed with datetime objects (UTC, another zone, naive)."""
+    out = []
+    pool = list(base)
+    rnd.shuffle(pool)
+    for cf in pool[:n_time]:
+        d = {k: cf[k] for k in ('c', 'rep', 'e', 'method', 'clean', 'bnd',
+                                'nan', 'probes')}
+        refs, ref = rnd.choice(REFS)
+        d.update(kind='time', unit=rnd.choice(sorted(UNITS)), refs=refs,
+                 ref=ref, tz=rnd.choice(['naive', 0, 0, 330, -480]),
+                 argform=rnd.choice(['list', 'array']))
+        out.append(d)
+    k = 0
+    for cf in pool:
+        if k >= n_t2t:
+            break
+        c = cf['c']
+        asc = c[0] < c[1]
+        uniform = all(c[i + 1] - c[i] == c[1] - c[0] for i in range(len(c) - 1))
+        # time2t reads getTimes(bounds=True): explicit n x 2 time_bounds, or
+        # half a step around the centres of a uniform axis; times ascend
+        if not asc or cf['rep'] == 'edges' or (cf['rep'] == 'none'
+                                               and not uniform):
+            continue
+        d = {k2: cf[k2] for k2 in ('c', 'rep', 'e', 'method', 'clean', 'bnd',
+                                   'nan', 'probes')}
+        refs, ref = rnd.choice(REFS)
+        d.update(kind='t2t', unit=rnd.choice(['days', 'hours', 'minutes']),
+                 refs=refs, ref=ref, tz=rnd.choice([0, 0, 330, -480]),
+                 ttype=rnd.choice(['nearest', 'bounds', 'bounds_close']))
+        out.append(d)
+        k += 1
     return out
 
 
@@ -112,7 +196,14 @@ def run(tier):
             {min(e) - 40, max(e) + 40}
         cf['probes'] = sorted(ps)
         extra.append(cf)
-    todo = cfgs + extra
+    for cf in cfgs + extra:
+        cf['kind'] = 'val'
+    # the datetime front-ends time2idx and time2t on the same configurations
+    fam = time_family(rnd, cfgs + extra, 500 if tier == 'quick' else 6000,
+                      250 if tier == 'quick' else 3000)
+    out.cov['datetime_cases'] = {'time2idx': sum(1 for d in fam if d['kind'] == 'time'),
+                                 'time2t': sum(1 for d in fam if d['kind'] == 't2t')}
+    todo = cfgs + extra + fam
     for i, cf in enumerate(todo):
         cf['tid'] = i + 1
     res = run_cases(run_config, todo, timeout=60, per_child=300, chunksize=30)
@@ -123,7 +214,8 @@ def run(tier):
         traces.append(t)
     out.cov['evaluations'] = sum(len(t['obs']) for t in traces)
     out.cov['distinct_nontrivial'] = len(set(
-        (tuple(t['c']), t['rep'], t['method'], t['clean'], t['bnd'], t['nan'])
+        (tuple(t['c']), t['rep'], t['method'], t['clean'], t['bnd'], t['nan'],
+         t['kind'], t.get('unit'), t.get('refs'), t.get('ttype'), str(t.get('tz')))
         for t in traces))
     out.cov['rule'] = ('a case is one configuration (coordinate, bounds '
                        'representation, method, clean, bounds option, '
